@@ -69,7 +69,7 @@ func (v *StructSchema) process(ctx *p.SchemaCtx) {
 			for _, fn := range v.postTransforms {
 				err := fn(ctx.ValPtr, ctx)
 				if err != nil {
-					ctx.AddIssue(ctx.Issue().SetError(err))
+					ctx.AddIssue(ctx.IssueFromUnknownError(err))
 					return
 				}
 			}
